@@ -1,6 +1,7 @@
 package c16
 
 import (
+	"encoding/base64"
 	"encoding/json"
 	"os"
 )
@@ -14,6 +15,7 @@ func replay(c *ctx) {
 		Detail struct {
 			Case  string                 `json:"case"`
 			Input string                 `json:"input"`
+			B64   string                 `json:"input_b64"`
 			Eval  evalKey                `json:"eval"`
 			Extra map[string]interface{} `json:"extra"`
 			Fault json.RawMessage        `json:"fault"`
@@ -29,7 +31,11 @@ func replay(c *ctx) {
 	}
 	fam, _ := rec.Key["family"].(string)
 	lang, _ := rec.Key["lang"].(string)
-	je := journalEntry{CaseID: rec.Detail.Case, Family: fam, Lang: lang, Key: rec.Detail.Eval, Input: []byte(rec.Detail.Input), Extra: rec.Detail.Extra}
+	input := []byte(rec.Detail.Input)
+	if b, err := base64.StdEncoding.DecodeString(rec.Detail.B64); err == nil && rec.Detail.B64 != "" {
+		input = b
+	}
+	je := journalEntry{CaseID: rec.Detail.Case, Family: fam, Lang: lang, Key: rec.Detail.Eval, Input: input, Extra: rec.Detail.Extra}
 	c.examine(je, "replay")
 	r.Case("replay", true)
 	r.Case("replay2", true)
